@@ -27,10 +27,11 @@ What is mirrored (function by function)
   cobra `PreRunE` of `newCreateClusterCmd`  → `preRun`
   `deposit.VerifyDepositAmounts`            → `verifyDepositAmounts`
   `validateCreateConfig`, `detectNodeDirs`  → `validateCreateConfig`
-  `validateDef`                             → `validateDef`
+  `validateDef`                             → `validateDef` (threshold check of repair 5f2f8be: switch `Fixes.defThreshold`)
+  `getKeys` with `checkUniqueKeys`          → `planKeys` (repair c6adf89: switch `Fixes.uniqueKeys`)
   `validateAddresses`, `safeThreshold`, `newDefFromConfig` (+ the checks of `cluster.NewDefinition`)
                                             → `validateAddresses`, `safeThreshold`, `newDefFromConfig`
-  `runCreateCluster` up to `getTSSShares`   → `plan`
+  `runCreateCluster` up to `getTSSShares`   → `plan` (`planKeys`, `planDef`, `planTail`)
   `getTSSShares`                            → `shareArray`, `tssShares`
   `deposit.DedupAmounts`                    → `dedupAmounts`
   `signDepositDatas`, `createDepositDatas`  → `signDepositDatas`, `createDepositDatas`
